@@ -281,4 +281,15 @@ def _q_builtin_pem(self, q):
 Oracle.q_x509_load = _q_x509_load
 Oracle.q_chain_verify = _q_chain_verify
 Oracle.q_key_description = _q_key_description
+def _q_pem_canon(self, q):
+    """the certificate in a PEM text, re-serialised canonically; null when nothing loads"""
+    from cryptography import x509 as _x
+    from cryptography.hazmat.primitives import serialization as _s
+    try:
+        return {"b": hx(_x.load_pem_x509_certificate(bytes.fromhex(q["pem"])).public_bytes(_s.Encoding.PEM))}
+    except (ValueError, TypeError):
+        return {"b": None}
+
+
 Oracle.q_builtin_pem = _q_builtin_pem
+Oracle.q_pem_canon = _q_pem_canon
